@@ -82,6 +82,13 @@ func singleStore(a *ssa.Alloc) ssa.Value {
 		}
 	}
 	if n == 1 {
+		// a snapshot of a variable that is assigned again later must keep its
+		// own identity: "old := cur; cur.X = ...; use(old)"
+		if u, ok := val.(*ssa.UnOp); ok && u.Op == token.MUL {
+			if src, ok := u.X.(*ssa.Alloc); ok && src != a && singleStore(src) == nil {
+				return nil
+			}
+		}
 		return val
 	}
 	return nil
@@ -380,6 +387,7 @@ func phiLeaves(v ssa.Value) []ssa.Value {
 	var out []ssa.Value
 	var walk func(ssa.Value)
 	walk = func(x ssa.Value) {
+		x = stripConv(x)
 		if seen[x] {
 			return
 		}
